@@ -8,8 +8,10 @@
 //!             fb=<1 iff every thread has frames <= stack bytes + 2> peak=<peak heap bytes> in=<input bytes>
 //!             out=<bytes rendered> ms=<wall ms> cpu=<CPU ms of the processing thread> al=<allocator calls>
 //!             sym=<symbol-provider calls: fill_symbol+walk_frame+get_file_path>/<frames produced, all option sets>
+//!             fbud=<frame budget of the state: sum over threads of (stack bytes + 2)>/<its upper bound threads x (largest region + 2)>
 //!     A CPU watchdog ends the process (status 124, reason on stderr) as soon as a D/F case has used more CPU time than
-//!     the budget 10000 ms + 0.5 ms per input byte: a budget tied to the input size that does not depend on machine load.
+//!     the budget 10000 ms + 0.5 ms per (input byte + frame of the frame budget threads x (largest region + 2)): the budget proved
+//!     for the model (c03_total_frames_bound), tied to the input alone and independent of machine load.
 //!  L <hex of /proc/<pid>/limits>          -> L <name hex>|<soft>|<hard>|<unit hex>;...   (sorted by name)
 //!  G <addr> <kind 0 info|1 maps> <n> (a b p)*n   amd64/Linux crash at `mov rax,[rbx]`, rbx = addr
 //!                                         -> G <is_likely_guard_page of the access | ->
@@ -133,7 +135,7 @@ fn start_cpu_watchdog() {
         if d != 0 && clock_ms(clk) > d {
             let n = CPU_CASE_INPUT.load(Ordering::Relaxed);
             eprintln!(
-                "budget: a case used more than {} ms of CPU time for {} input bytes (budget {} ms + 1 ms per {} bytes)",
+                "budget: a case used more than {} ms of CPU time for {} input bytes + frames of the frame budget (budget {} ms + 1 ms per {} of them)",
                 CPU_BUDGET_BASE_MS + n as u64 / CPU_BUDGET_BYTES_PER_MS,
                 n,
                 CPU_BUDGET_BASE_MS,
@@ -322,24 +324,72 @@ fn share_patch(spec: &Spec, mut bytes: Vec<u8>) -> (Vec<u8>, u64, u64) {
     (bytes, 0, 0)
 }
 
+/// |thread list| x (bytes of the largest region a thread can be walked on + 2): the bound of c03_total_frames_bound, computable
+/// before processing (regions of the memory list and the threads' own stack descriptors)
+fn whole_frame_budget(dump: &Minidump<'_, Vec<u8>>) -> usize {
+    let mem = dump.get_memory().unwrap_or_default();
+    let mut largest = 0u64;
+    for m in mem.iter() {
+        largest = largest.max(m.size());
+    }
+    let mut n = 0u64;
+    if let Ok(tl) = dump.get_stream::<MinidumpThreadList>() {
+        n = tl.threads.len() as u64;
+        for t in &tl.threads {
+            if let Some(m) = t.stack_memory(&mem) {
+                largest = largest.max(m.size());
+            }
+        }
+    }
+    n.saturating_mul(largest.saturating_add(2)).min(usize::MAX as u64) as usize
+}
+
+/// the frame budget of a processed state: the sum over its threads of (bytes of the stack memory the thread can have been walked
+/// on + 2) — per thread the bound of c03_process_threads_total, with the same measure of "stack bytes" as frame_bound below
+fn frame_budget(dump: &Minidump<'_, Vec<u8>>, state: &ProcessState) -> u64 {
+    let mem = dump.get_memory().unwrap_or_default();
+    let threads = dump.get_stream::<MinidumpThreadList>().ok();
+    let mut total = 0u64;
+    for (i, cs) in state.threads.iter().enumerate() {
+        let mut bytes = 0u64;
+        if let Some(t) = threads.as_ref().and_then(|tl| tl.threads.get(i)) {
+            if let Some(m) = t.stack_memory(&mem) {
+                bytes = bytes.max(m.size());
+            }
+        }
+        if let Some(f0) = cs.frames.first() {
+            if let Some(m) = mem.memory_at_address(f0.context.get_stack_pointer()) {
+                bytes = bytes.max(m.size());
+            }
+        }
+        total = total.saturating_add(bytes.saturating_add(2));
+    }
+    total
+}
+
 fn run_whole(spec: &Spec) -> String {
     let t0 = Instant::now();
     PEAK.store(CUR.load(Ordering::Relaxed), Ordering::Relaxed);
     let base = CUR.load(Ordering::Relaxed);
-    let (bytes, sh_threads, sh_bytes) = share_patch(spec, build_dump(spec));
+    let (bytes, _sh_threads, _sh_bytes) = share_patch(spec, build_dump(spec));
     let insz = bytes.len() + spec.syms.iter().map(|s| s.len()).sum::<usize>();
-    // the CPU watchdog is armed with the budget the oracle judges: linear in the input size, where a descriptor that is cited
-    // by T thread-list entries counts T times (share=1: see props/c03.py, F-C03h)
-    arm_cpu_budget(insz + (sh_threads * sh_bytes) as usize);
+    // reading the dump: budget on the input bytes alone; re-armed below with the frame budget once the thread list is known
+    arm_cpu_budget(insz);
     let (cpu0, al0) = (cpu_ms(), NALLOC.load(Ordering::Relaxed));
     SYM_CALLS.store(0, Ordering::Relaxed);
     let dump = match Minidump::read(bytes) {
         Ok(d) => d,
         Err(_) => {
             disarm_cpu_budget();
-            return format!("OK r=readerr thr=0 fr=0/0 fb=1 peak=0 in={} out=0 ms=0 cpu={} al=0 sym=0/0", insz, cpu_ms() - cpu0);
+            return format!("OK r=readerr thr=0 fr=0/0 fb=1 peak=0 in={} out=0 ms=0 cpu={} al=0 sym=0/0 fbud=0/0", insz, cpu_ms() - cpu0);
         }
     };
+    // The budget "tied to the input size" is the one PROVED for the model (c03_total_frames_bound / c03_frames_budget_in_file_size):
+    // the whole state has at most |thread list| x (largest memory region + 2) frames, whatever the stacks and symbols contain —
+    // descriptors are references into the file, so this is quadratic in the file length, not linear. The watchdog is armed with
+    // that figure (cheap to compute before processing); the oracle judges with the tighter per-thread sum `fbud` reported below.
+    let frame_budget_upper = whole_frame_budget(&dump);
+    arm_cpu_budget(insz.saturating_add(frame_budget_upper));
     let syms = symbol_table(spec, &dump);
     let opts: Vec<u32> = match spec.opt {
         3 => vec![0, 1, 2],
@@ -355,6 +405,7 @@ fn run_whole(spec: &Spec) -> String {
     let mut res = String::from("ok");
     let (mut thr, mut fr, mut sb, mut fb, mut out) = (0usize, 0usize, 0u64, true, 0usize);
     let mut frames_total = 0usize;
+    let mut fbud = 0u64;
     for o in opts {
         match process(&dump, &syms, o, evil) {
             Outcome::Timeout => res = "timeout".into(),
@@ -362,6 +413,7 @@ fn run_whole(spec: &Spec) -> String {
             Outcome::Ok(state) => {
                 out += render(&state);
                 let (n, b, ok) = frame_bound(&dump, &state);
+                fbud = fbud.max(frame_budget(&dump, &state));
                 thr = state.threads.len();
                 frames_total += state.threads.iter().map(|t| t.frames.len()).sum::<usize>();
                 if !ok || (fb && n >= fr) {
@@ -375,7 +427,7 @@ fn run_whole(spec: &Spec) -> String {
     let peak = PEAK.load(Ordering::Relaxed).saturating_sub(base);
     disarm_cpu_budget();
     format!(
-        "OK r={} thr={} fr={}/{} fb={} peak={} in={} out={} ms={} cpu={} al={} sym={}/{}",
+        "OK r={} thr={} fr={}/{} fb={} peak={} in={} out={} ms={} cpu={} al={} sym={}/{} fbud={}/{}",
         res,
         thr,
         fr,
@@ -388,7 +440,9 @@ fn run_whole(spec: &Spec) -> String {
         cpu_ms() - cpu0,
         NALLOC.load(Ordering::Relaxed) - al0,
         SYM_CALLS.load(Ordering::Relaxed),
-        frames_total
+        frames_total,
+        fbud,
+        frame_budget_upper
     )
 }
 
